@@ -378,6 +378,9 @@ pub struct Gen {
 	pub no_zero_volume: bool,
 	/// never repeat a value exactly (a flat window makes correlations / ratios 0/0: undefined)
 	pub no_plateau: bool,
+	/// force a x1/1024 drop of the price scale at this call (regime the running-sum designs are sensitive to)
+	pub force_drop_at: Option<u64>,
+	calls: u64,
 	pub rng: Rng,
 	scale: f64,
 	cur: f64,
@@ -391,7 +394,7 @@ impl Gen {
 		let scale = *rng.pick(&[1e-3, 0.37, 1.0, 12.5, 100.0, 3e4]);
 		let cur = scale * (0.5 + rng.unit());
 		let shape = rng.below(8);
-		Self { no_zero_volume: false, no_plateau: false, rng, scale, cur, shape, positive }
+		Self { no_zero_volume: false, no_plateau: false, force_drop_at: None, calls: 0, rng, scale, cur, shape, positive }
 	}
 	fn finish(&mut self, mut v: f64) -> f64 {
 		if self.positive {
@@ -414,6 +417,12 @@ impl Gen {
 		v
 	}
 	pub fn scalar(&mut self) -> f64 {
+		self.calls += 1;
+		if self.force_drop_at == Some(self.calls) {
+			self.scale /= 1024.0;
+			self.cur /= 1024.0;
+			self.shape = 1;
+		}
 		if self.rng.chance(0.04) {
 			self.shape = self.rng.below(8);
 		}
